@@ -515,7 +515,8 @@ def check_target_test(prog, rep, f, entry, k, L, gt, src, vals, px):
     """X6: default targets are the non-zero finite cells; with explicit values a cell is a target iff it equals one"""
     v = App('read', [src, px])
     atoms = guard_atoms([gt])
-    n_at = [a for a in atoms if isinstance(a, App) and a.name == 'len']
+    # the number of target values: len(values) or values.shape[0]
+    n_at = [a for a in atoms if isinstance(a, App) and (a.name == 'len' or (a.name == 'shape' and len(a.args) == 2 and a.args[0] == vals and a.args[1] in (0, Rat.const(0))))]
     fin = [a for a in atoms if isinstance(a, App) and a.name == 'isfinite' and a.args[0] == Rat.atom(v)]
     flags = [a for a in atoms if isinstance(a, App) and a.name == 'loopout']
     elems = [a for a in atoms if isinstance(a, App) and a.name in ('read', 'elem') and (a.args[0] == vals or a.args[0] == Rat.sym(vals))]
